@@ -9,6 +9,7 @@ package main
 
 import (
 	"encoding/json"
+	"flag"
 	"fmt"
 	"os"
 	"runtime"
@@ -82,6 +83,8 @@ func run(in c06Input, deep bool, g func(t *trace, i int) *op) (c06Case, error) {
 	}
 	if err != nil {
 		cs.Obs.Problem = err.Error()
+	} else if t.problem != "" {
+		cs.Obs.Problem = t.problem
 	}
 	if stop {
 		t.tags["stopped_after_violation"] = true
@@ -105,7 +108,9 @@ func main() {
 	if _, err := os.Stat("/dev/shm"); err == nil && os.Getenv("VERIF_KEEP_TMPDIR") == "" {
 		os.Setenv("TMPDIR", "/dev/shm")
 	}
-	core.Main("c06", nil, func(c *core.Common, out *core.Emitter) error {
+	core.Main("c06", func(fs *flag.FlagSet) {
+		fs.BoolVar(&finalizeP2PKH, "psbt-p2pkh", false, "finalize and verify PSBT packets with P2PKH inputs too (observation O1)")
+	}, func(c *core.Common, out *core.Emitter) error {
 		deep, err := probeDeepReorg()
 		if err != nil {
 			return err
